@@ -243,7 +243,34 @@ def run(tier, seed, replay=None):
             from sqlcorpus import harvest
             base = [s for s in harvest()[dialect] if len(s) < 200][:40] + ['select 1', 'show databases', 'select a from t where b = 2']
             wraps = [';{}', ';;{}', ' ;\n; {}', '{};;', '{} ; ;', '; {} ;', '{}\n;\n', '\n\n{}', ',{}', '){}', '{} )', '({}', ';', '; ', ';;;',
-                     "{} @'v'", '@"v" {}', '{} @@`v`', "@@'sv' {}", '{} @v', '{} 1', "{} 'x'", '{} "y"', '{} `z`', '{} ?']
+                     "{} @'v'", '@"v" {}', '{} @@`v`', "@@'sv' {}", '{} @v', '{} 1', "{} 'x'", '{} "y"', '{} `z`', '{} ?',
+                     '{} /* a */ from from /* b */', '/* a */ {} /* b */ x y /* c */', '{} /* a */ ) /* b */ ;', '{} -- a\n x -- b\n', '/* a */ /* b */ {}',
+                     '{} /* a\n b */ , /* c */']
+
+            def strip_comments(text):
+                """the text without its comments, found by a scanner of its own (quotes respected, a block comment ends at the first */)"""
+                out_, i_, n_ = [], 0, len(text)
+                while i_ < n_:
+                    c_ = text[i_]
+                    if c_ in '\'"`':
+                        j_ = i_ + 1
+                        while j_ < n_ and text[j_] != c_:
+                            j_ += 2 if text[j_] == '\\' and c_ != '`' else 1
+                        out_.append(text[i_:j_ + 1])
+                        i_ = j_ + 1
+                    elif text.startswith('--', i_):
+                        j_ = text.find('\n', i_)
+                        i_ = n_ if j_ < 0 else j_
+                    elif text.startswith('/*', i_):
+                        j_ = text.find('*/', i_ + 2)
+                        if j_ < 0:
+                            return None
+                        out_.append(' ')
+                        i_ = j_ + 2
+                    else:
+                        out_.append(c_)
+                        i_ += 1
+                return ''.join(out_)
             Lcls = type(__import__('mindsdb_sql').get_lexer_parser(dialect)[0])
 
             def raw_count(text):
@@ -277,6 +304,9 @@ def run(tier, seed, replay=None):
                 n_acc += 1
                 evaluations += 1
                 spec_text = re.sub(r'[\s;]+$', '', txt)
+                nocom = strip_comments(spec_text)
+                if nocom is not None and dialect == 'mindsdb':
+                    spec_text = re.sub(r'[\s;]+$', '', nocom)
                 try:
                     stoks = lex(dialect, spec_text)
                     rc_ = raw_count(spec_text)
